@@ -252,9 +252,19 @@ def gen_local_case(r):
 # ---- implementation side --------------------------------------------------------------------------
 
 
+def make_standardize(p, nv, case):
+    """direct construction, or - for one case in four, chosen by the case itself - the documented configuration route
+    (a mapping handed to alias_factory_subclass_from_arg)"""
+    import zlib
+    if zlib.crc32(common.canon(case).encode()) % 4 == 0:
+        from pydrobert.speech.alias import alias_factory_subclass_from_arg
+        return alias_factory_subclass_from_arg(p.PostProcessor, {"alias": "standardize", "norm_var": nv})
+    return p.Standardize(norm_var=nv)
+
+
 def impl_accumulate(case, hist_key, X):
     p = post()
-    s = p.Standardize(norm_var=case["nv"])
+    s = make_standardize(p, case["nv"], case)
     arrays = []
     for i, c in enumerate(case[hist_key]):
         a = build_array(X, c, case["dtype"])
@@ -408,7 +418,7 @@ def eval_case(ctx, case, tmpdir, lines, pending):
     paxis = case["probe"]["axis"]
 
     if case["kind"] == "local":
-        s = p.Standardize(norm_var=nv)
+        s = make_standardize(p, nv, case)
         if s.have_stats:
             ctx.violation(slim(case), False, True, "a fresh object has no statistics", tags=dict(clause="have_stats"))
         probe_in = probe.copy()
